@@ -93,7 +93,15 @@ fn run_driver(report: &mut Report, known: &KnownFindings, tier: Tier, driver: &s
     }
     let plans = threaded_plans(tier, &base);
     eprintln!("{}: {} plans (baseline {} reads, {} writes, {} flushes, {} iterations)", driver, plans.len(), base.reads, base.writes, base.flushes, base.iterations);
-    let outcomes: Vec<Outcome> = pool.install(|| plans.par_iter().map(execute).collect());
+    // a client that hangs makes every execution run into the harness's real-time guard; after a handful of those the rest
+    // of the enumeration is skipped (the run is a machinery failure anyway) instead of waiting 20 s per plan
+    let timeouts = std::sync::atomic::AtomicUsize::new(0);
+    let outcomes: Vec<Outcome> = pool.install(|| plans.par_iter().map(|plan| {
+        if timeouts.load(std::sync::atomic::Ordering::Relaxed) >= 8 { return Outcome { plan: plan.clone(), machinery: vec!["skipped after repeated harness timeouts".to_string()], ..Default::default() }; }
+        let o = execute(plan);
+        if o.machinery.iter().any(|m| m.contains("did not finish")) { timeouts.fetch_add(1, std::sync::atomic::Ordering::Relaxed); }
+        o
+    }).collect());
     let mut distinct: HashSet<u64> = HashSet::new();
     let mut first: BTreeMap<String, (String, Outcome)> = BTreeMap::new();
     let mut machinery = 0;
